@@ -160,6 +160,12 @@ def StOK (W : World Node VH V) (ps : PageSet Node) (r : Req Node VH V) (aw : Opt
 def ReqOK (W : World Node VH V) (ps : PageSet Node) (r : Req Node VH V) (aw : Option Query) : Prop :=
   Trail W r ∧ PidOK r ∧ StOK W ps r aw
 
+/-- the number of b-tree leaves a fetch may still ask for (`none`: not fetching) -/
+def fetchPend : RState Node VH V → Option Nat
+  | .fetchingLeaf _ it _ => some it.leaf.pending.length
+  | .fetchingLeaves _ _ it _ _ => some it.leaf.pending.length
+  | _ => none
+
 structure SysInv (W : World Node VH V) (s : Sys Node VH V) : Prop where
   ps : PSInv W s.ps
   mem : MemOK W s.cache
